@@ -147,7 +147,13 @@ var peerAssumption = []string{"peer model P: answers getheaders from the first l
 
 func c01Sched() []nschedTask {
 	sc := c01Scenarios(false)
+	first := histParams{Prop: "C01", Cfg: WorldCfg{InitialChain: 3, StartHeight: 1, SafeDelayMS: 2000, RemoveMissing: true}, Boot: "cold", Drain: true}
+	one := histParams{Prop: "C01", Cfg: WorldCfg{InitialChain: 1, StartHeight: 1, SafeDelayMS: 2000, RemoveMissing: true}, Boot: "cold", Drain: true}
 	return []nschedTask{
+		// the start block is block 1: the very first block is processed while the stored chain is still only the genesis block
+		{P: first, Hist: []string{"ans", "ans", "tick:250", "ans", "ans", "tick:250", "settle"}},
+		{P: one, Hist: []string{"ans", "ans", "ans", "tick:250", "tick:250", "settle"}},
+		{P: one, Hist: []string{"ans", "ans:1", "ans", "tick:250", "ext:1", "tick:250", "settle"}},
 		{P: sc[0], Hist: []string{"ext:2", "ans", "reorg:1:2", "ans", "ans", "tick:250", "back:1", "settle"}},
 		{P: sc[0], Hist: []string{"ext:12", "ans", "ans", "reorg:2:3", "tick:250", "settle"}},
 		{P: sc[1], Hist: []string{"ans", "ans", "reorg:3:4", "ans", "tick:250", "settle"}},
